@@ -261,8 +261,16 @@ def run(ctx):
         fam = rng.choice(list(fams))
         mode = rng.choice(list(SampleIntervalMode))
         if mode == SampleIntervalMode.IRREGULAR:
-            ts = sorted((mk(fam, "ts") for _ in range(rng.randint(0, 5))), key=lambda x: convert_datetime(ht.datetime, x))
-            timing = Timing.create_with_irregular_interval(ts)
+            mixed = rng.random() < 0.35       # timestamps of several families in one list (the constructor accepts that)
+            ts = sorted((mk(rng.choice(list(fams)) if mixed else fam, "ts") for _ in range(rng.randint(0, 5))),
+                        key=lambda x: convert_datetime(ht.datetime, x))
+            made = outcome(Timing.create_with_irregular_interval, ts)
+            if made[0] != "ok":
+                if not mixed:
+                    ctx.violation(conv="Timing.create_with_irregular_interval", value=repr(ts)[:200], observed=show(made), required="a Timing")
+                continue
+            timing = made[1]
+            ctx.count("timing_irregular", "mixed families" if mixed and len({type(x) for x in ts}) > 1 else "one family")
         else:
             a = mk(fam, "ts") if rng.random() < 0.6 else None
             b = mk(rng.choice(list(fams)) if rng.random() < 0.3 else fam, "td") if rng.random() < 0.6 else None
